@@ -386,6 +386,10 @@ def body(run):
     run.require("configs", total // 2)
     for lab in ("below", "above", "at", "inside"):
         run.require(f"needs_update:{lab}:" + ("True" if lab in ("below", "above") else "False"), 20)
+    if run.tier == "thorough":
+        # the repository's own test-suite as one more workload, monitors on (vlib/ambient_plugin.py)
+        from vlib.ambient import suite_under_monitor
+        suite_under_monitor(run, min_events={"C04-fresh-hash": 20})
     run.assumptions += ["'claims' in 'first configured scheme that claims it' is the unconfigured hasher's own identify(); identify correctness itself is C07/C08/C17",
                         "log2-cost schemes with float vary_rounds: the variation range is not modelled (window and needs_update still are)"]
 
